@@ -81,8 +81,14 @@ func (ts *Timers) withMap(x interface{}) error {
 
 // State creates a machine state that Timers.withMap can use.
 func (ts *Timers) State() *core.State {
+	// Publish a copy: the state travels to the crew's change cache
+	// and on to the host, while ts.Map keeps changing.
+	m := make(map[string]*TimerEntry, len(ts.Map))
+	for id, te := range ts.Map {
+		m[id] = te
+	}
 	return &core.State{
-		Bs: match.NewBindings().Extend("timers", ts.Map),
+		Bs: match.NewBindings().Extend("timers", m),
 	}
 }
 
@@ -100,7 +106,10 @@ func (ts *Timers) Start(ctx context.Context) error {
 
 func (ts *Timers) add(ctx context.Context, e *TimerEntry) error {
 	if _, have := ts.Map[e.Id]; have {
-		return ts.cancel(ctx, e.Id)
+		// Replace the timer that is pending under this id.
+		if err := ts.cancel(ctx, e.Id); err != nil {
+			return err
+		}
 	}
 
 	ts.Map[e.Id] = e
@@ -142,14 +151,28 @@ func (te *TimerEntry) run(ctx context.Context) error {
 	t := time.NewTimer(te.At.Sub(time.Now()))
 	select {
 	case <-t.C:
+		// Retire this entry before emitting, and only if it is
+		// still ours: a cancel that got the lock first means
+		// this timer must not fire, and from here on the id is
+		// free for reuse (also by whoever handles the message
+		// we are about to emit).
+		//
+		// The crew lock comes first (as in Crew.ProcessMsg, which
+		// holds it while a timers action takes the timers lock).
+		te.timers.c.Lock()
+		te.timers.Lock()
+		current, have := te.timers.Map[te.Id]
+		if have && current == te {
+			delete(te.timers.Map, te.Id)
+			te.timers.changed()
+		}
+		te.timers.Unlock()
+		te.timers.c.Unlock()
+		if !have || current != te {
+			return nil
+		}
 		te.timers.c.Logf("Firing timer '%s'", te.Id)
 		te.timers.Emitter(ctx, te)
-		te.timers.Lock()
-		delete(te.timers.Map, te.Id)
-		te.timers.Unlock()
-		te.timers.c.Lock()
-		te.timers.changed()
-		te.timers.c.Unlock()
 	case <-te.Ctl:
 		te.timers.c.Logf("Canceling timer '%s'", te.Id)
 	case <-ctx.Done():
